@@ -1239,6 +1239,8 @@ def _eval_atom(x, val, cache):
                 v = math.log(args[0])
             elif n == "pow":
                 v = args[0] ** args[1]
+            elif n == "mod":
+                v = args[0] % args[1]
             elif n == "clip":
                 v = min(max(args[0], args[1]), args[2])
             elif n == "min":
